@@ -273,6 +273,7 @@ type refStats struct {
 	MaxDepth   int
 	Expansions int
 	ZeroUnderOverflow bool // a zero-cost field under a multiplier product beyond maxInt (F-14a shape)
+	CtxReadBelowConn int // cost functions reading the application's context value below a default-cost connection
 	DupKeys    int  // field selections whose response key already occurred in the same AST selection set
 	DupUnder   int  // … of which have sub-selections of their own
 	Negative   bool // a negative resolver cost occurs (outside the property's quantifier)
@@ -294,7 +295,15 @@ func effMul(m int) *big.Int {
 	return big.NewInt(1)
 }
 
-func (e *refEnv) sels(ss *ast.SelectionSet, M *big.Int, ctx int, depth int, viaFrag bool, intro bool, path []string) *big.Int {
+// cctx is the cost context as the cost functions in play see it: the value under the harness's own key
+// (handed down by n/i/l/crm/k and by a default cost with a Context) and the max edge count a
+// default-cost connection adds under pagination.go's key. Setting one leaves the other.
+type cctx struct {
+	user, edges int
+	belowConn   bool
+}
+
+func (e *refEnv) sels(ss *ast.SelectionSet, M *big.Int, ctx cctx, depth int, viaFrag bool, intro bool, path []string) *big.Int {
 	total := new(big.Int)
 	if ss == nil || e.err != nil {
 		return total
@@ -336,22 +345,31 @@ func (e *refEnv) sels(ss *ast.SelectionSet, M *big.Int, ctx int, depth int, viaF
 				return total
 			case "d":
 				r, m = e.dflt.R, e.dflt.M
-				if e.dflt.Set {
-					newCtx = e.dflt.C
+				if e.dflt.Set { // a fixed context of its own: no max edge count in it
+					newCtx = cctx{user: e.dflt.C, belowConn: ctx.belowConn}
 				}
-			case "c", "conn", "edges":
+			case "conn": // defaultConnectionCost: adds the max edge count to the context it received
+				r, m = 1, 0
+				newCtx.edges = ce.C
+				newCtx.belowConn = true
+			case "edges":
+				r, m = 0, ctx.edges
+			case "c":
 				r, m = ce.R, ce.M
 				if ce.RCtx {
-					r = ctx
+					r = ctx.user
 				}
 				if ce.MCtx {
-					m = ctx
+					m = ctx.user
 				}
 				if ce.RCtx || ce.MCtx {
 					e.st.CtxReads++
+					if ctx.belowConn {
+						e.st.CtxReadBelowConn++
+					}
 				}
 				if ce.Set {
-					newCtx = ce.C
+					newCtx.user = ce.C
 				}
 			}
 			e.st.Charged++
@@ -404,6 +422,6 @@ func refCostGo(doc *ast.Document, op *ast.OperationDefinition, coerced map[strin
 			env.frags[f.Name.Name] = f
 		}
 	}
-	total := env.sels(op.SelectionSet, big.NewInt(1), 0, 1, false, false, nil)
+	total := env.sels(op.SelectionSet, big.NewInt(1), cctx{}, 1, false, false, nil)
 	return total, st, env.err
 }
